@@ -359,7 +359,7 @@ def build(seed, tier, focus='all'):
              attrs_field=("none" if tr == "FromAttributes" else "plain"), magic_ident=(tr != "FromAttributes"))
         if tr != "FromAttributes":
             root([field("max_volume", V, default="fn"), field("inner", ty("recv", leaf), default="trait")],
-                 trait=tr, attr_names=["x"], max_items=2, max_attrs=3, forward="only", forward_names=["doc", "keep"],
+                 trait=tr, attr_names=["x"], max_items=2, max_attrs=3, forward="only", forward_names=["keep", "doc"],
                  attrs_field="plain", magic_ident=True, rename_all="camelCase")
     root([field("name", V), field("rest", ty("recv", flat_inner), flatten=True)], trait="FromDeriveInput",
          attr_names=["x"], max_items=3, max_attrs=2)
